@@ -340,6 +340,19 @@ class Session:
                 return d
         return None
 
+    def check_counts_retry(self, exp, flaky):
+        """Like check_counts, but store operations that fail their first j attempts are expected j+1 times."""
+        execs, reads, writes, side, mts = self.observed()
+        for name, got, want, kind in (("store writes", writes, exp.writes, "wr_before"), ("store reads", reads, exp.reads, "rd")):
+            want_c = collections.Counter({i: 1 + flaky.get((kind, f"s{i}"), 0) for i in want})
+            if got != want_c:
+                return f"{name}: got {dict(got)} expected {dict(want_c)}"
+        # a call whose write/read-back is retried is still executed once
+        want_c = collections.Counter({i: 1 for i in exp.execs})
+        if execs != want_c:
+            return f"call executions: got {dict(execs)} expected {dict(want_c)}"
+        return None
+
     def check_values(self, result, out_ids):
         """C03: output and every non-pure-source store equal the from-scratch values."""
         raw, seen = self.scratch()
